@@ -54,7 +54,8 @@ def gen_case(rng):
     sysd = dict(sysd, max_grad=c18.MAXG * 1000, max_slew=c18.MAXS * 10000)   # limits are C04's subject
     evs = []
     with_arb = rng.random() < 0.3
-    same_timing = rng.random() < 0.2
+    same_timing = rng.random() < 0.3
+    same_delay = rng.random() < 0.4
     base = c18.gen_trap(rng, sysd)
     single = rng.random() < 0.12          # one gradient event in total: may start/end away from zero
     only = rng.choice(gl.CHN)
@@ -65,7 +66,10 @@ def gen_case(rng):
         for _ in range(n):
             k = rng.random()
             if same_timing:
+                # equally shaped trapezoids (the "same timing" fast path of add_gradients), equal or different delays
                 g = dict(base, amp=c18.rnd_amp(rng))
+                if same_delay is False:
+                    g['delay'] = rng.randint(0, 9) * sysd['raster']
             elif k < 0.45:
                 g = c18.gen_trap(rng, sysd)
             elif k < 0.8 or not with_arb:
@@ -89,7 +93,10 @@ def gen_case(rng):
     if rng.random() < 0.1:
         # a component just around the elimination threshold
         angle = rng.choice([1e-6, 0.99e-6, 1.01e-6, math.pi / 2 - 1e-6, -1e-6])
-    return {'sys': sysd, 'events': evs, 'angle': angle, 'axis': rng.choice(gl.CHN)}
+    case = {'sys': sysd, 'events': evs, 'angle': angle, 'axis': rng.choice(gl.CHN)}
+    if rng.random() < 0.15:
+        case['default_sys'] = True      # rotate() called without a system after Opts.set_as_default()
+    return case
 
 
 def build(d, system):
@@ -218,7 +225,7 @@ def run_rotate(ctx, cases):
         ang = case['angle']
         c, s = float(np.cos(ang)), float(np.sin(ang))
         try:
-            out = pp.rotate(*evs, angle=ang, axis=case['axis'], system=system)
+            out = gl.call_with_default(system, case.get('default_sys'), pp.rotate, *evs, angle=ang, axis=case['axis'])
             err = None
         except Exception as e:
             out, err = None, e
@@ -227,6 +234,8 @@ def run_rotate(ctx, cases):
         ctx.count('rotate.axis.' + case['axis'])
         ctx.count('rotate.ngrad.%d' % ngr)
         ctx.count('rotate.angle.' + ('special' if ang in SPECIAL else 'random'))
+        if case.get('default_sys'):
+            ctx.count('rotate.system_from_library_default')
         if err is not None:
             ctx.fail('C17/raises', case, {'exception': repr(err)})
             continue
@@ -261,7 +270,7 @@ def run_rotate(ctx, cases):
             # inverse rotation restores the waveforms
             nb = info['nb']
             try:
-                back = pp.rotate(*out, angle=-ang, axis=case['axis'], system=system)
+                back = gl.call_with_default(system, case.get('default_sys'), pp.rotate, *out, angle=-ang, axis=case['axis'])
             except Exception as e:
                 ctx.fail('C17/inverse-raises', case, {'exception': repr(e)})
                 continue
